@@ -124,19 +124,24 @@ enum Plan<'a> {
 /// Blocking is detected by a time-out, so a run on a heavily loaded machine can mistake a slow
 /// thread for a blocked one.  Such a run betrays itself (a "blocked" thread shows up at a site
 /// although nobody has called notify_all since): it is discarded and repeated.
-fn run_case(progs: &[Vec<Op>], plan: Plan) -> Obs {
+/// The second component is true for a SUSPECT result (some thread never came back, or the probe
+/// was not answered): its threads have been leaked, so the caller must not run further cases in
+/// this process; a suspect result is only reported after it has repeated itself in fresh
+/// processes.
+fn run_case(progs: &[Vec<Op>], plan: Plan) -> (Obs, bool) {
     let mut last = None;
     for _ in 0..5 {
-        let (o, flaky) = run_once(progs, plan);
-        if !flaky { return o; }
+        let (o, flaky, suspect) = run_once(progs, plan);
+        if suspect { return (o, true); }
+        if !flaky { return (o, false); }
         if std::env::var("C37_DEBUG").is_ok() { eprintln!("c37: flaky run repeated: {}", replay_line(progs, &o.sched)); }
         last = Some(o);
         std::thread::sleep(Duration::from_millis(50));
     }
-    last.unwrap()
+    (last.unwrap(), true)
 }
 
-fn run_once(progs: &[Vec<Op>], plan: Plan) -> (Obs, bool) {
+fn run_once(progs: &[Vec<Op>], plan: Plan) -> (Obs, bool, bool) {
     let n = progs.len();
     let q = Arc::new(GroupCommitQueue::with_default_config());
     let pool = PageBufferPool::new(16);
@@ -273,16 +278,11 @@ fn run_once(progs: &[Vec<Op>], plan: Plan) -> (Obs, bool) {
         });
         o.probe = match rx.recv_timeout(Duration::from_secs(10)) { Ok(true) => 1, Ok(false) => 0, Err(_) => 0 };
     } else {
-        // let the blocked waiters run into their 30 s timeout so that the threads can be joined
-        let t0 = Instant::now();
-        while !s.all_finished() && t0.elapsed() < Duration::from_secs(40) {
-            for i in 0..n { let _ = s.step(i); }
-            std::thread::sleep(Duration::from_millis(50));
-        }
-        for h in hs { let _ = h.join(); }
+        // the threads that never came back are leaked (the caller ends this process)
         Scheduler::uninstall();
     }
-    (o, flaky)
+    let suspect = stuck || o.probe != 1;
+    (o, flaky, suspect)
 }
 
 // ---------------------------------------------------------------- the property's oracle
@@ -416,8 +416,8 @@ fn main() {
     }
 }
 
-/// One unit of work of a generation run (executed in a worker process: the scheduler hook is
-/// process-global, so parallelism needs processes).
+/// One unit of work (executed in a worker process: the scheduler hook is process-global, so
+/// parallelism needs processes; and a process whose run left threads behind must end).
 #[derive(Clone, Debug)]
 enum Task {
     /// every schedule of program set `set` with at most `bound` preemptions of the default policy
@@ -425,12 +425,15 @@ enum Task {
     /// preemption belongs to residue 0)
     Enum { set: usize, bound: usize, modulus: usize, res: usize },
     Random { seed: u64, count: usize },
+    /// the replay lines `from..to` of a file
+    Lines { file: String, from: usize, to: usize },
 }
 impl Task {
     fn to_args(&self) -> Vec<String> {
         match self {
             Task::Enum { set, bound, modulus, res } => vec!["enum".into(), set.to_string(), bound.to_string(), modulus.to_string(), res.to_string()],
             Task::Random { seed, count } => vec!["random".into(), seed.to_string(), count.to_string()],
+            Task::Lines { file, from, to } => vec!["lines".into(), file.clone(), from.to_string(), to.to_string()],
         }
     }
     fn from_args(r: &[String]) -> Option<Task> {
@@ -438,98 +441,150 @@ impl Task {
         match r.first().map(|x| x.as_str()) {
             Some("enum") => Some(Task::Enum { set: n(1)? as usize, bound: n(2)? as usize, modulus: n(3)? as usize, res: n(4)? as usize }),
             Some("random") => Some(Task::Random { seed: n(1)?, count: n(2)? as usize }),
+            Some("lines") => Some(Task::Lines { file: r.get(1)?.clone(), from: n(2)? as usize, to: n(3)? as usize }),
             _ => None,
         }
     }
 }
 
-struct Row { kind: String, nontrivial: bool, blocked: usize, replay: String, term: String }
+/// progress of a task, saved when the worker has to end early (exit code 17) and loaded by its
+/// successor
+#[derive(Clone, Debug, Default)]
+struct Progress {
+    started: bool,
+    /// Enum: descriptors still to run (top = last)
+    stack: Vec<Vec<(usize, usize)>>,
+    /// Random: generator state and cases done; Lines: next line
+    rng: u64,
+    done: usize,
+    /// how often the case that is next has come back suspect
+    suspect_runs: usize,
+}
+impl Progress {
+    fn save(&self, path: &Path) {
+        let st: Vec<String> = self.stack.iter().map(|d| d.iter().map(|(p, u)| format!("{}:{}", p, u)).collect::<Vec<_>>().join(",")).collect();
+        let _ = std::fs::write(path, format!("{}\n{}\n{}\n{}\n", self.rng, self.done, self.suspect_runs, st.join(";")));
+    }
+    fn load(path: &Path) -> Option<Progress> {
+        let txt = std::fs::read_to_string(path).ok()?;
+        let l: Vec<&str> = txt.split('\n').collect();
+        if l.len() < 4 { return None; }
+        let stack = if l[3].is_empty() { vec![] } else {
+            l[3].split(';').map(|d| d.split(',').filter(|x| !x.is_empty()).filter_map(|x| { let mut it = x.split(':'); Some((it.next()?.parse().ok()?, it.next()?.parse().ok()?)) }).collect()).collect()
+        };
+        Some(Progress { started: true, stack, rng: l[0].parse().ok()?, done: l[1].parse().ok()?, suspect_runs: l[2].parse().ok()? })
+    }
+}
 
-fn run_task(task: &Task, thorough: bool) -> Vec<Row> {
-    let mut rows = vec![];
-    let mut add = |progs: &[Vec<Op>], o: &Obs, base: &str| {
-        rows.push(Row { kind: kind_of(base, o), nontrivial: nontrivial(o), blocked: o.blocked_steps, replay: replay_line(progs, &o.sched), term: case_term(progs, o) });
+use std::path::Path;
+
+/// Worker: runs its task, appending one line per case to `--out`
+/// (kind \t nontrivial \t blocked \t oracle verdict \t replay \t term).  Exit code 17 = ended early after a
+/// suspect run, progress saved in `<out>.state`: start me again.
+fn worker(a: &Args) {
+    let task = Task::from_args(&a.rest).expect("worker task");
+    let state_path = std::path::PathBuf::from(format!("{}.state", a.out.display()));
+    let mut pr = Progress::load(&state_path).unwrap_or_default();
+    let mut out = String::new();
+    let flush = |out: &mut String| {
+        use std::io::Write as _;
+        if let Ok(mut f) = std::fs::OpenOptions::new().create(true).append(true).open(&a.out) { let _ = f.write_all(out.as_bytes()); }
+        out.clear();
     };
-    match task {
+    let row = |progs: &[Vec<Op>], o: &Obs, base: &str| -> String {
+        format!("{}\t{}\t{}\t{}\t{}\t{}\n", kind_of(base, o), if nontrivial(o) { 1 } else { 0 }, o.blocked_steps,
+                oracle(o).unwrap_or("ok"), replay_line(progs, &o.sched), case_term(progs, o))
+    };
+    // what to do with the result of one case; returns false if the process has to end
+    let mut settle = |pr: &mut Progress, out: &mut String, progs: &[Vec<Op>], o: &Obs, suspect: bool, base: &str| -> (bool, bool) {
+        // (accepted, go_on)
+        if !suspect { pr.suspect_runs = 0; out.push_str(&row(progs, o, base)); return (true, true); }
+        pr.suspect_runs += 1;
+        if pr.suspect_runs >= 3 {
+            // it repeats itself in fresh processes: report it
+            pr.suspect_runs = 0;
+            out.push_str(&row(progs, o, base));
+            return (true, false);
+        }
+        (false, false)
+    };
+    match &task {
         Task::Enum { set, bound, modulus, res } => {
-            let (progs, _) = enum_sets(thorough)[*set].clone();
-            let mut stack: Vec<Vec<(usize, usize)>> = vec![vec![]];
-            while let Some(d) = stack.pop() {
-                let o = run_case(&progs, Plan::Preempt(&d));
-                if d.len() < *bound {
-                    let from = d.last().map(|x| x.0 + 1).unwrap_or(0);
-                    for i in from..o.sched.len() {
-                        if d.is_empty() && i % modulus != *res { continue; }
-                        for &u in &o.avail[i] {
-                            if u != o.sched[i] {
-                                let mut d2 = d.clone();
-                                d2.push((i, u));
-                                stack.push(d2);
+            let (progs, _) = enum_sets(a.thorough())[*set].clone();
+            if !pr.started { pr.stack = vec![vec![]]; pr.started = true; }
+            while let Some(d) = pr.stack.last().cloned() {
+                let (o, suspect) = run_case(&progs, Plan::Preempt(&d));
+                let emit = !d.is_empty() || *res == 0;
+                let (accepted, go_on) = if emit { settle(&mut pr, &mut out, &progs, &o, suspect, &format!("enum{}t", progs.len())) }
+                                        else if suspect { pr.suspect_runs += 1; (pr.suspect_runs >= 3, false) } else { (true, true) };
+                if accepted {
+                    pr.stack.pop();
+                    if d.len() < *bound && !suspect {
+                        let from = d.last().map(|x| x.0 + 1).unwrap_or(0);
+                        for i in from..o.sched.len() {
+                            if d.is_empty() && i % modulus != *res { continue; }
+                            for &u in &o.avail[i] {
+                                if u != o.sched[i] {
+                                    let mut d2 = d.clone();
+                                    d2.push((i, u));
+                                    pr.stack.push(d2);
+                                }
                             }
                         }
                     }
                 }
-                if !d.is_empty() || *res == 0 { add(&progs, &o, &format!("enum{}t", progs.len())); }
+                if !go_on { flush(&mut out); pr.save(&state_path); std::process::exit(17); }
             }
         }
         Task::Random { seed, count } => {
-            let mut rng = Rng::new(*seed);
-            for i in 0..*count {
+            if !pr.started { pr.rng = Rng::new(*seed).0; pr.started = true; }
+            while pr.done < *count {
+                let mut rng = Rng(pr.rng);
                 let progs = random_progs(&mut rng);
-                let o = run_case(&progs, Plan::Random(rng.next(), 2 + (i % 4) as u64));
-                add(&progs, &o, &format!("random{}t", progs.len()));
+                let plan_seed = rng.next();
+                let (o, suspect) = run_case(&progs, Plan::Random(plan_seed, 2 + (pr.done % 4) as u64));
+                let (accepted, go_on) = settle(&mut pr, &mut out, &progs, &o, suspect, &format!("random{}t", progs.len()));
+                if accepted { pr.rng = rng.0; pr.done += 1; }
+                if !go_on { flush(&mut out); pr.save(&state_path); std::process::exit(17); }
+            }
+        }
+        Task::Lines { file, from, to } => {
+            let lines: Vec<String> = std::fs::read_to_string(file).unwrap_or_default().lines().map(|l| l.trim().to_string()).filter(|l| !l.is_empty()).collect();
+            if !pr.started { pr.done = *from; pr.started = true; }
+            while pr.done < (*to).min(lines.len()) {
+                match parse_line(&lines[pr.done]) {
+                    Some((progs, sched)) => {
+                        let (o, suspect) = run_case(&progs, Plan::Fixed(&sched));
+                        let (accepted, go_on) = settle(&mut pr, &mut out, &progs, &o, suspect, "replay");
+                        if accepted { pr.done += 1; }
+                        if !go_on { flush(&mut out); pr.save(&state_path); std::process::exit(17); }
+                    }
+                    None => pr.done += 1,
+                }
             }
         }
     }
-    rows
+    flush(&mut out);
+    let _ = std::fs::remove_file(&state_path);
 }
 
-fn worker(a: &Args) {
-    let task = Task::from_args(&a.rest).expect("worker task");
-    let rows = run_task(&task, a.thorough());
-    let mut s = String::new();
-    for r in rows {
-        s.push_str(&format!("{}\t{}\t{}\t{}\t{}\n", r.kind, if r.nontrivial { 1 } else { 0 }, r.blocked, r.replay, r.term));
-    }
-    std::fs::write(&a.out, s).expect("worker output");
-}
+struct Row { kind: String, nontrivial: bool, blocked: usize, verdict: String, replay: String, term: String }
 
-fn gen(a: &Args) {
-    let mut w = CaseWriter::new(&a.out, "C37", "Corr.C37", 400);
-    if let Some(lines) = a.replay_lines() {
-        for l in lines {
-            if let Some((progs, sched)) = parse_line(&l) {
-                let o = run_case(&progs, Plan::Fixed(&sched));
-                w.push(case_term(&progs, &o), replay_line(&progs, &o.sched), nontrivial(&o), &kind_of("replay", &o));
-            }
-        }
-        w.finish(&[]);
-        return;
-    }
-    let t_start = Instant::now();
-    // ---- task list
-    let mut tasks: Vec<Task> = vec![];
-    for (set, (_, bound)) in enum_sets(a.thorough()).iter().enumerate() {
-        let modulus = if *bound >= 3 { 8 } else if *bound == 2 { 4 } else { 1 };
-        for res in 0..modulus { tasks.push(Task::Enum { set, bound: *bound, modulus, res }); }
-    }
-    let mut rng = Rng::new(a.seed);
-    let (chunks, per) = if a.thorough() { (32, 150) } else { (8, 40) };
-    for _ in 0..chunks { tasks.push(Task::Random { seed: rng.next(), count: per }); }
-    // ---- run them in worker processes
+/// run the tasks in worker processes (at most `jobs` at a time) and collect their rows in task order
+fn run_tasks(a: &Args, tasks: &[Task], work_dir: &Path) -> (Vec<Row>, usize) {
     let exe = std::env::current_exe().expect("current_exe");
     let jobs: usize = std::env::var("C37_JOBS").ok().and_then(|x| x.parse().ok()).unwrap_or(12);
-    let tmp = a.out.join("work");
-    std::fs::create_dir_all(&tmp).expect("work dir");
+    let _ = std::fs::remove_dir_all(work_dir);
+    std::fs::create_dir_all(work_dir).expect("work dir");
     let mut running: Vec<(usize, std::process::Child, Instant, u32)> = vec![];
     let mut queue: std::collections::VecDeque<(usize, u32)> = (0..tasks.len()).map(|i| (i, 0u32)).collect();
     let mut failed_tasks = 0usize;
-    let mut retried = 0usize;
-    let task_limit = Duration::from_secs(if a.thorough() { 900 } else { 240 });
+    let mut restarts = 0usize;
+    let task_limit = Duration::from_secs(if a.thorough() { 900 } else { 300 });
     while !queue.is_empty() || !running.is_empty() {
         while !queue.is_empty() && running.len() < jobs {
             let (ti, attempt) = queue.pop_front().unwrap();
-            let out = tmp.join(format!("t{:04}.tsv", ti));
+            let out = work_dir.join(format!("t{:04}.tsv", ti));
             let child = std::process::Command::new(&exe).arg("worker").arg("--tier").arg(&a.tier).arg("--out").arg(&out)
                 .args(tasks[ti].to_args()).spawn().expect("spawn worker");
             running.push((ti, child, Instant::now(), attempt));
@@ -541,16 +596,16 @@ fn gen(a: &Args) {
             match running[i].1.try_wait() {
                 Ok(Some(st)) => {
                     let (ti, _, _, attempt) = running.remove(i);
-                    if !st.success() { if attempt == 0 { queue.push_back((ti, 1)); retried += 1; } else { failed_tasks += 1; } }
+                    if st.code() == Some(17) && attempt < 40 { queue.push_back((ti, attempt + 1)); restarts += 1; }
+                    else if !st.success() { failed_tasks += 1; eprintln!("c37: worker for task {:?} failed ({:?})", tasks[ti], st.code()); }
                     progressed = true;
                 }
                 _ if over => {
-                    // a worker that hangs (it should take seconds) is killed and its task repeated once
-                    let (ti, mut ch, _, attempt) = running.remove(i);
+                    let (ti, mut ch, _, _) = running.remove(i);
                     let _ = ch.kill();
                     let _ = ch.wait();
                     eprintln!("c37: worker for task {:?} exceeded its time limit", tasks[ti]);
-                    if attempt == 0 { queue.push_back((ti, 1)); retried += 1; } else { failed_tasks += 1; }
+                    failed_tasks += 1;
                     progressed = true;
                 }
                 _ => i += 1,
@@ -559,39 +614,61 @@ fn gen(a: &Args) {
         if !progressed { std::thread::sleep(Duration::from_millis(20)); }
     }
     if failed_tasks > 0 { eprintln!("c37: {} worker(s) failed", failed_tasks); std::process::exit(3); }
-    // ---- collect in task order
-    let mut blocked_total = 0usize;
+    let mut rows = vec![];
     for i in 0..tasks.len() {
-        let txt = std::fs::read_to_string(tmp.join(format!("t{:04}.tsv", i))).unwrap_or_default();
+        let txt = std::fs::read_to_string(work_dir.join(format!("t{:04}.tsv", i))).unwrap_or_default();
         for l in txt.lines() {
-            let f: Vec<&str> = l.splitn(5, '\t').collect();
-            if f.len() != 5 { continue; }
-            blocked_total += f[2].parse::<usize>().unwrap_or(0);
-            w.push(f[4].to_string(), f[3].to_string(), f[1] == "1", f[0]);
+            let f: Vec<&str> = l.splitn(6, '\t').collect();
+            if f.len() != 6 { continue; }
+            rows.push(Row { kind: f[0].to_string(), nontrivial: f[1] == "1", blocked: f[2].parse().unwrap_or(0), verdict: f[3].to_string(), replay: f[4].to_string(), term: f[5].to_string() });
         }
     }
-    let _ = std::fs::remove_dir_all(&tmp);
-    let wall = t_start.elapsed().as_secs_f64();
-    w.finish(&[("blocked_steps".into(), blocked_total.to_string()), ("harness_wall_s".into(), format!("{:.1}", wall)), ("worker_tasks".into(), tasks.len().to_string()), ("worker_tasks_repeated".into(), retried.to_string())]);
+    let _ = std::fs::remove_dir_all(work_dir);
+    (rows, restarts)
 }
 
-/// Oracle only: random programs and schedules on the implementation.
-fn search(a: &Args) {
-    let mut rng = Rng::new(a.seed ^ 0xC37C37);
-    let mut fails: Vec<String> = vec![];
-    let mut tried = 0u64;
-    let t0 = Instant::now();
-    let budget = a.budget.min(20_000);
-    while tried < budget && t0.elapsed() < Duration::from_secs(600) && fails.len() < 20 {
-        let progs = random_progs(&mut rng);
-        let o = run_case(&progs, Plan::Random(rng.next(), 2 + tried % 4));
-        tried += 1;
-        if let Some(why) = oracle(&o) {
-            fails.push(format!("{} why={}", replay_line(&progs, &o.sched), why));
+fn gen(a: &Args) {
+    let mut w = CaseWriter::new(&a.out, "C37", "Corr.C37", 400);
+    let t_start = Instant::now();
+    let mut tasks: Vec<Task> = vec![];
+    if let Some(lf) = &a.lines {
+        let n = a.replay_lines().map(|l| l.len()).unwrap_or(0);
+        let file = lf.display().to_string();
+        let mut from = 0;
+        while from < n { tasks.push(Task::Lines { file: file.clone(), from, to: (from + 25).min(n) }); from += 25; }
+    } else {
+        for (set, (_, bound)) in enum_sets(a.thorough()).iter().enumerate() {
+            let modulus = if *bound >= 3 { 8 } else if *bound == 2 { 4 } else { 1 };
+            for res in 0..modulus { tasks.push(Task::Enum { set, bound: *bound, modulus, res }); }
         }
+        let mut rng = Rng::new(a.seed);
+        let (chunks, per) = if a.thorough() { (32, 150) } else { (8, 40) };
+        for _ in 0..chunks { tasks.push(Task::Random { seed: rng.next(), count: per }); }
     }
+    let (rows, restarts) = run_tasks(a, &tasks, &a.out.join("work"));
+    let mut blocked_total = 0usize;
+    for r in rows {
+        blocked_total += r.blocked;
+        w.push(r.term, r.replay, r.nontrivial, &r.kind);
+    }
+    let wall = t_start.elapsed().as_secs_f64();
+    w.finish(&[("blocked_steps".into(), blocked_total.to_string()), ("harness_wall_s".into(), format!("{:.1}", wall)),
+               ("worker_tasks".into(), tasks.len().to_string()), ("worker_restarts".into(), restarts.to_string())]);
+}
+
+/// Oracle only (no model): random programs and schedules on the implementation.
+fn search(a: &Args) {
+    let budget = a.budget.min(6_000) as usize;
+    let mut rng = Rng::new(a.seed ^ 0xC37C37);
+    let per = 150;
+    let tasks: Vec<Task> = (0..(budget + per - 1) / per).map(|_| Task::Random { seed: rng.next(), count: per }).collect();
+    let work = std::path::PathBuf::from(format!("{}.work", a.out.display()));
+    let (rows, _) = run_tasks(a, &tasks, &work);
     let mut s = String::new();
-    for f in &fails { s.push_str(&format!("FAIL {}\n", f)); }
-    s.push_str(&format!("tried={}\n", tried));
+    let mut nf = 0;
+    for r in &rows {
+        if r.verdict != "ok" && nf < 20 { s.push_str(&format!("FAIL {} why={}\n", r.replay, r.verdict)); nf += 1; }
+    }
+    s.push_str(&format!("tried={}\n", rows.len()));
     std::fs::write(&a.out, s).expect("write search output");
 }
